@@ -37,6 +37,10 @@ CLAIMED = {
         text='Deductive proof over the real text of LineIndex::line_col, Index<LineNr>::index and the Sub impls: for every text, every index built from it and every offset in it, line = number of newlines before the offset and column = offset - start of that line; no underflow, no out-of-bounds.',
         note='Partial: LineIndex::new (iterator chain) is assumed to build the index (index_wf); TextSize modelled as u32; std partition_point contract assumed; the "file:line:col" rendering is not under contract.',
         ref='DESIGN.md 5 (C25)'),
+    'C26': dict(
+        text='Deductive, unbounded proof (Verus) over the real text of crates/topo: TopoSort::{default,len,is_empty,insert,insert_dep,remove,clear,peek_all,in_cycle,peek_all_cyclic} and Dependencies::new, with indexmap replaced by a specified shim. An inductive representation invariant (the counter of every pending item equals the number of pending items that list it as a dependant; keys distinct) is preserved by every mutator from an ARBITRARY well-formed state, hence over every history of any length and any number of items; under it peek_all offers exactly the items all of whose registered dependencies have completed, a cycle is reported iff the schedule is non-empty and every item still waits, remove makes an item disappear until it is re-registered, counters never underflow.',
+        note='Assumed: the indexmap contract (shims/verus/indexmap.rs); T::clone is the identity; generic parameters instantiated at P=Q=U=T (the checker\\'s only use); iterator chains of the three observers replaced by shims that take the same closure; the usage protocol "a dependency is only registered on an item that is pending or was never scheduled" is a PRECONDITION of insert/insert_dep (no stale edges) and is not proved about InferenceCtx::finish; extend/insert_deps/pop/pop_all are not under contract.',
+        ref='DESIGN.md 5 (C26)'),
     'C27': dict(
         text='Deductive proof over the real text of add_part and MangledPartKind::to_code: add_part appends exactly <decimal length><text>, with an underscore put in front of texts that start with a digit or an underscore; this per-part encoding is proved injective and uniquely decodable when followed by anything (prefix-freeness lemma), and kind letters are pairwise different upper-case letters.',
         note='Partial: the list of parts (create_mangled_for_* iterator chains), the table-of-contents assembly in create_mangled_for_file and FileName::get_components (which maps `.` to `-`: `a.b/` and `a-b/` still collide) are not under contract. Assumed: usize::to_string is a digits-only decimal text without leading zero (axioms D1-D3); part texts are ASCII.',
@@ -69,7 +73,6 @@ PENDING = {
     'C10': 'unit not built yet (index / #unwrap guards)',
     'C19': 'unit not built yet (SysV classification)',
     'C25': 'unit not built yet (LineIndex::line_col)',
-    'C26': 'unit not built yet (TopoSort representation invariant)',
 }
 
 
